@@ -163,6 +163,47 @@ def random_suite(seed, n):
         yield program([gen(r.range(2, 5)) for _ in range(12)], seed)
 
 
+CB_OP = {"add": "+", "sub": "-", "mul": "*", "div": "/", "mod": "%", "shl": "<<", "shr": ">>", "band": "&", "bor": "|", "bxor": "^",
+         "lt": "<", "le": "<=", "gt": ">", "ge": ">=", "eq": "==", "ne": "!=", "land": "&&", "lor": "||"}
+
+
+def py_bin(op, x, y):
+    f = {"add": lambda: x + y, "sub": lambda: x - y, "mul": lambda: x * y, "div": lambda: int(x / y), "mod": lambda: x - y * int(x / y),
+         "shl": lambda: x << y, "shr": lambda: x >> y, "band": lambda: x & y, "bor": lambda: x | y, "bxor": lambda: x ^ y,
+         "lt": lambda: int(x < y), "le": lambda: int(x <= y), "gt": lambda: int(x > y), "ge": lambda: int(x >= y),
+         "eq": lambda: int(x == y), "ne": lambda: int(x != y), "land": lambda: int(bool(x) and bool(y)), "lor": lambda: int(bool(x) or bool(y))}
+    return f[op]()
+
+
+def assignment_cases():
+    """assignment is the lowest level of the table and groups to the right; the expected values are computed here (the ladder
+    model stops at ?:)"""
+    cases = []
+
+    def c(cid, body, out):
+        cases.append({"id": cid, "program": "int main() {\n    int a = 100;\n    int b = 200;\n    int c = 300;\n    int t = 1;\n" + body +
+                      "    println(\"END\");\n    return 0;\n}\n", "expect_class": "ok", "expect_stdout": out + "END\n"})
+    for op in BIN:
+        for (x, y) in [(7, 3), (5, 2), (12, 5)]:
+            v = py_bin(op, x, y)
+            o = CB_OP[op]
+            # a = b = x op y  must be  a = (b = (x op y))
+            c("chain-%s-%d" % (op, x), "    a = b = %d %s %d;\n    println(a, b);\n" % (x, o, y), "%d %d\n" % (v, v))
+            c("chain-paren-%s-%d" % (op, x), "    a = (b = (%d %s %d));\n    println(a, b);\n" % (x, o, y), "%d %d\n" % (v, v))
+            c("compound-chain-%s-%d" % (op, x), "    a = 10;\n    a += b = %d %s %d;\n    println(a, b);\n" % (x, o, y), "%d %d\n" % (10 + v, v))
+    c("chain3", "    a = b = c = 9;\n    println(a, b, c);\n", "9 9 9\n")
+    c("chain3-paren", "    a = (b = (c = 9));\n    println(a, b, c);\n", "9 9 9\n")
+    c("chain-ternary", "    a = b = t ? 4 : 5;\n    println(a, b);\n", "4 4\n")
+    c("chain-ternary-0", "    t = 0;\n    a = b = t ? 4 : 5;\n    println(a, b);\n", "5 5\n")
+    c("ternary-of-assign-paren", "    a = t ? (b = 6) : (c = 7);\n    println(a, b, c);\n", "6 6 300\n")
+    c("assign-as-operand", "    a = (b = 2) + 1;\n    println(a, b);\n", "3 2\n")
+    c("assign-in-condition", "    if ((a = b - 199) > 0) {\n        println(a);\n    }\n", "1\n")
+    c("assign-in-argument", "    println((a = 5) * 2, a);\n", "10 5\n")
+    c("compound-right-assoc", "    a = 1;\n    b = 2;\n    a += b += 3;\n    println(a, b);\n", "6 5\n")
+    c("chain-element", "    int[3] z = [0, 0, 0];\n    a = z[1] = 9;\n    println(a, z[1]);\n", "9 9\n")
+    return cases
+
+
 def main(a):
     c = RefCheck(PID, a, ["CbGen", "CbProofs", "CbProps.C02", "CbOblig.C02"], THEOREMS, translators=["ladder"])
     if not c.build():
@@ -176,15 +217,19 @@ def main(a):
     tri_ops = ["add", "mul", "shl", "lt", "eq", "band", "bor", "land", "lor"] if quick else BIN
     c.suite("operator-triples", triple_suite(a.seed, tri_ops), nontrivial=lambda r: hash(r.sexp))
     c.suite("random-trees", random_suite(a.seed, 150 if quick else 15000), nontrivial=lambda r: hash(r.sexp))
+    c.raw_suite("assignment-level", assignment_cases())
     return c.finish(
         rule="each program prints, per expression tree, its value under minimal parentheses (the specification table), "
              "under full parentheses and under random redundant parentheses; all three must equal the reference value. "
              "operator-pairs: all 18x18 ordered binary pairs in both shapes x 7 operand triples, plus unary/ternary "
              "nestings (exhaustive); operator-triples: all 5 shapes over a 9-operator subset (all 18 in thorough); "
-             "random trees to depth 5. non-trivial = distinct program",
+             "random trees to depth 5; assignment-level: a = b = x op y for all 18 operators (plain, fully parenthesised, after a "
+             "compound assignment), three-fold chains, assignment vs ?:, assignment used as operand / condition / argument, "
+             "with values computed by the harness. non-trivial = distinct program",
         extra={"exhaustive": True, "exhaustive_note": "operator pairs are enumerated completely; triples over the stated "
                "operator set; random trees are a sample"},
-        assumptions=["postfix chains beyond [ ], casts, await, try are outside the ladder model"])
+        assumptions=["postfix chains beyond [ ], casts, await, try are outside the ladder model",
+                     "the assignment level is not part of the Lean ladder (which stops at ?:): its grouping is checked end-to-end only"])
 
 
 def _corpus():
